@@ -34,8 +34,9 @@ def segments():
     Rno = RP.build_readout(b"/KAM5", [b"1-0:32.7.0(230.1*V)"], checksum=None)
     assert RP.dissect(Rbad)["sent"] != RP.dissect(Rbad)["crc"]
     Fp1 = RH.build_frame(0xA, 0, b"\x01", b"\x21", 0x13, R)  # a valid frame that carries a complete valid readout
+    Rhi = RP.build_readout(b"/ABC5xyz", [b"1-0:1.7.0(0001.3\xe50*kW)"], blank_after_ident=False)  # line noise: a non-ASCII octet in a data line
     return {
-        "Fp1": b"\x7e" + Fp1 + b"\x7e",
+        "Fp1": b"\x7e" + Fp1 + b"\x7e", "Rhi": Rhi,
         "Fp": b"\x7e" + Fp + b"\x7e", "F0": b"\x7e" + F0 + b"\x7e", "Fbad": b"\x7e" + Fbad + b"\x7e", "Flen": b"\x7e" + Flen + b"\x7e",
         "Fs": b"\x7e" + RH.stuff(Fs) + b"\x7e", "R": R, "Rbad": Rbad, "Rno": Rno, "bin": bytes([0x00, 0xFF, 0x2F, 0x41, 0x0A, 0x7D]), "asc": b"hello\r\n",
     }
@@ -43,6 +44,7 @@ def segments():
 
 SEG = segments()
 SEGN = tuple(SEG)
+SEGN_CORE = tuple(k for k in SEG if k not in ("Fp1", "Rhi"))
 CLEAN_H = {"Fp": b"\xe6\xe7\x00payload", "F0": None}  # (Fp1 can legitimately be taken for P1 traffic: not in the completeness clause)
 CLEAN_P = {"R": RP.dissect(SEG["R"])["payload"], "Rno": RP.dissect(SEG["Rno"])["payload"]}
 
@@ -138,8 +140,11 @@ def check(w, spec, payload_mode, ch) -> list[str]:
         a = actual(spec, chunks, payload_mode)
         return [f"queue {a!r:.150} != expected from the selected reader {e!r:.150}"] if e != a else []
     chunks = mk_chunks(S, ch)
-    e = expected(spec, chunks, payload_mode)
-    a = actual(spec, chunks, payload_mode)
+    e = expected(spec, chunks, payload_mode)  # (a reader that raises is C14's business: propagates to the caller)
+    try:
+        a = actual(spec, chunks, payload_mode)
+    except Exception as ex:  # noqa: BLE001
+        return [f"data_received() raised {type(ex).__name__} although the readers themselves handle this stream: the queue misses {len(e)} item(s)"]
     errs = []
     if e != a:
         errs.append(f"queue {a!r:.150} != expected from the selected reader {e!r:.150}")
@@ -158,8 +163,10 @@ def _work(task) -> core.Part:
     prefix, N, pairs_upto = task
     p = core.Part()
     for L in range(len(prefix), N + 1):
-        for tail in itertools.product(SEGN, repeat=L - len(prefix)):
+        for tail in itertools.product(SEGN if L <= 2 else SEGN_CORE, repeat=L - len(prefix)):
             w = prefix + tail
+            if L > 2 and not set(w) <= set(SEGN_CORE):
+                continue
             S = b"".join(SEG[x] for x in w)
             n = len(S)
             fam = [("cuts", []), ("bytewise",)] + [("cuts", [i]) for i in range(1, n)] + [("fixed", k) for k in range(2, 8)]
@@ -169,6 +176,8 @@ def _work(task) -> core.Part:
             for spec in SPECS:
                 for pm in (True, False):
                     for ch in fam:
+                        if L <= 2 and ch[0] != "cuts":
+                            core.set_logging("debug" if core.LOG_MODE == "off" else "off")  # short sequences see both logging configurations
                         try:
                             errs = check(w, spec, pm, ch)
                         except Exception as ex:  # noqa: BLE001  (C14's business)
